@@ -186,6 +186,7 @@ def streams(ctx):
                 if "pos" in it:
                     pos2payload[max(it["pos"] - 1, 0)] = res["payloads"][pi]   # FileSet base 1 -> offset = pos-1 (NoPos -> 0)
                 pi += 1
+        mapped_detail = None
         if not c["malformed"]:
             bad = None
             if panicked:
@@ -214,7 +215,7 @@ def streams(ctx):
                 key = lambda t: tuple((x is None, x if x is not None else 0) for x in t)
                 if sorted(gotn, key=key) != sorted(want, key=key):
                     bad = "the encoded source map does not hold exactly one segment per hint with the hint's Go position (or none for NoPos)"
-                    res["maps"] = gotn[:12]; exp_maps = want[:12]
+                    mapped_detail = dict(got=gotn[:12], want=want[:12])
             elif c["callback"]:
                 # (line, col, Go offset, original name) per hint, in stream order
                 hints = [it for it in c["items"] if "code" not in it]
@@ -228,7 +229,7 @@ def streams(ctx):
                 ctx.violation("filter-" + re.sub(r"[^a-z]+", "-", bad[:40].lower()), bad,
                               dict(kind="stream", items=c["items"], chunks=c["chunks"], callback=c["callback"],
                                    impl=dict(out=res["out"], maps=res["maps"], panic=res["panic"]),
-                                   expected=dict(out=exp_out.hex(), maps=exp_maps)))
+                                   expected=dict(out=exp_out.hex(), maps=exp_maps), default_callbacks=mapped_detail))
         # --- model case
         if panicked:
             exp = "None"
